@@ -389,11 +389,27 @@ class HarnessError(Exception):
 class Executor:
     """Parent-side handle on a forked executor child (an 'epoch' of the client)."""
 
-    def __init__(self, root, knobs=None):
+    def __init__(self, root, knobs=None, fresh=None):
         p2c_r, p2c_w = os.pipe()
         c2p_r, c2p_w = os.pipe()
         sys.stdout.flush()
         sys.stderr.flush()
+        if fresh:
+            # a genuinely new interpreter instead of a fork of the pristine image (selftest only)
+            import subprocess
+            env = dict(os.environ, PYTHONWARNINGS="ignore", PYTHONDONTWRITEBYTECODE="1")
+            verif = os.path.dirname(os.path.dirname(os.path.abspath(__file__)))
+            env["PYTHONPATH"] = verif
+            proc = subprocess.Popen([sys.executable, "-m", "dsim.executor_main", root, fresh, json.dumps(knobs or {})],
+                                    stdin=p2c_r, stdout=c2p_w, env=env, cwd=verif, close_fds=True)
+            os.close(p2c_r)
+            os.close(c2p_w)
+            self.pid = proc.pid
+            self._proc = proc
+            self.w = p2c_w
+            self.rd = LineReader(c2p_r)
+            self.alive = True
+            return
         pid = os.fork()
         if pid == 0:
             os.close(p2c_w)
@@ -458,7 +474,10 @@ class Executor:
         except OSError:
             pass
         try:
-            os.waitpid(self.pid, 0)
+            if getattr(self, "_proc", None) is not None:
+                self._proc.wait()
+            else:
+                os.waitpid(self.pid, 0)
         except ChildProcessError:
             pass
 
